@@ -17,19 +17,22 @@
                          deadline, the time-out step is enabled at the deadline, and the next
                          `decide` of a caller that finds a dead computing loop takes the key over;
      no_deadlock         while some call on a live loop is unfinished, some step other than the
-                         environment's End / loop life-cycle events is enabled.
+                         environment's End / loop life-cycle events is enabled;
+     ok_C05_sound        every trace the model accepts satisfies the trace monitor that judges the
+                         traces of the real code (no hang, prompt answers, rescue within 60 s).
 
    NOT formalised (left on paper):
      - the inference "a fair scheduler eventually takes a step that stays enabled", which turns
        "enabled" (owner_can_finish, prompt, rescue_within_60, no_deadlock) into "eventually taken",
        together with the assumption of the property that every invocation of the wrapped function
        finishes or is cancelled (IEnd is an environment event);
+     - the converse of ok_C05_sound (ok_C05 tr = true implies the readable statement about tr);
      - `retry_measure` of DESIGN 5.5 (no spinning: every further round of the while-loop is paid for
        by an invocation ending, a loop changing state or 60 virtual seconds).  The model has no ghost
        retry counter; spinning of the real code is caught on traces by the step bound of the harness. *)
 From Coq Require Import List Arith NArith Bool.
 Import ListNotations.
-Require Import Aiuti.Cache Aiuti.CacheLemmas Aiuti.CacheInv Aiuti.CacheLive.
+Require Import Aiuti.Cache Aiuti.CacheLemmas Aiuti.CacheInv Aiuti.CacheLive Aiuti.CacheMon Aiuti.CacheMon5.
 
 (* own_ev p = Some e: the caller at pc p created event e in its Decide and has not yet run the
    `finally` block that sets it (pcs PUnlock (DComp e), PInvoke e, PComp _ e, PPublish _ e, PFinLock e _). *)
@@ -168,6 +171,37 @@ Theorem no_deadlock :
     exists e s', step s e = Some s' /\ progress_event s e = true.
 Proof. exact no_deadlock_run. Qed.
 Print Assumptions no_deadlock.
+
+(* MONITOR SOUNDNESS.  The trace monitor ok_C05 that the check evaluates on every trace observed
+   from the real code — the run ends with End 0 (no deadlock, no step bound = spinning, no hang);
+   when a loop's shutdown run is over every started call of that loop has been answered; and
+   whenever the clock moves, every started, unanswered, uncancelled call c of key k on a loop that
+   never stopped running is accounted for: either no invocation of k has succeeded yet and one is
+   in progress on a running loop (c is legitimately waiting for it or performing it: "prompt" — a
+   waiter is answered in the very tick in which the computation ends, a failed computation is
+   followed by a recomputation in the same tick, nobody waits for nothing), or some loop that
+   hosted an invocation of k stopped running at tick d and the clock does not pass
+   max(first tick of c, d) + 61440 (c may be stuck behind the dead loop, but only for the 60 s
+   safety window: "rescue") — accepts every trace the model can produce. *)
+Theorem ok_C05_sound :
+  forall nloops tbl tr, accepts nloops tbl tr = true -> ok_C05 nloops tbl tr = true.
+Proof. exact ok_C05_sound_l. Qed.
+Print Assumptions ok_C05_sound.
+
+(* the monitor is not trivially true: it rejects a run that ends in a deadlock, a waiter that is
+   answered only at the 60 s timeout although the computation on a running loop ended at tick 5
+   (lost wake-up), and a waiter that is still waiting behind a dead loop after the safety window *)
+Example ok_C05_rejects :
+  ok_C05 1 [(0,0)] [Get 0 0; End 1] = false
+  /\ ok_C05 2 [(0,0); (1,0)]
+        [Get 0 0; IStart 0 0 0%N; Get 1 1; Adv 5%N; IEnd 0 0 5%N; Done 0 0 0 5%N;
+         Adv 61440%N; Get 1 1; Done 1 0 0 61440%N; LoopEv 0 0; LoopEv 1 0; End 0] = false
+  /\ ok_C05 2 [(0,0); (1,0)]
+        [Get 0 0; IStart 0 0 0%N; Get 1 1; LoopEv 0 0; Adv 61440%N; Adv 61441%N] = false
+  /\ ok_C05 2 [(0,0); (1,0)]
+        [Get 0 0; IStart 0 0 0%N; Get 1 1; Adv 5%N; IEnd 0 0 5%N; Done 0 0 0 5%N; Done 1 0 0 5%N;
+         LoopEv 0 0; LoopEv 1 0; End 0] = true.
+Proof. vm_compute. repeat split; reflexivity. Qed.
 
 (* ---- non-vacuity ---- *)
 Definition c05_trace : list ev :=
